@@ -240,6 +240,7 @@ Proof.
     destruct (advance wb ts) as [ts1|e]; [|discriminate].
     destruct (pv_loop _ _ _ _ _ _ _ _ _ _) as [[[[vals pairs] sc] ts2]|e]; [|discriminate].
     destruct (advance wb ts2) as [ts3|e] eqn:Ea; [|discriminate].
+    destruct (String.eqb (text (cur ts)) "{" && negb (keys_hashable pairs)); [discriminate|].
     injection H as _ <-. exact (advance_ne _ _ _ Ea).
   - cbn [parse_value] in H. rewrite Ecl in H.
     destruct (maybe_basic o wb ts) as [[[v0 r0]|]|e] eqn:Em; [| |discriminate].
